@@ -9,8 +9,10 @@
 //	    universe, import, parameter, another local declaration: shadowing in either direction), that uses iota or
 //	    implicit repetition, or that occurs as a composite literal key (a field name cannot be told from the constant
 //	    without types) is left in place; the translators that do not accept constant declarations then refuse loudly.
-//	    The translator of Gen/DemuxGen.v already binds local constants with `let` (autoDetectPacketSize: const l = 193);
-//	    it keeps doing so: it runs on p.raw, a second parse of the same files without this substitution.
+//	    The translator of Gen/DemuxGen.v already binds local constants with `let` (autoDetectPacketSize: const l = 193,
+//	    used three times); it keeps doing so for a constant that is used more than once — both renderings are faithful,
+//	    this one keeps Gen/DemuxGen.v as it is: that translator runs on p.raw, a second parse of the same files in which
+//	    only the local constants with at most one use are substituted.
 //	(b) comparisons of len(x) / cap(x) with the literals 0 and 1 that say "empty" (== 0, < 1, <= 0, 0 ==, 1 >, 0 >=)
 //	    become `len(x) == 0`; those that say "not empty" (!= 0, > 0, >= 1, 0 <, 0 !=, 1 <=) become `len(x) > 0`: a
 //	    length is never negative. These are the two spellings /repo uses today.
@@ -35,8 +37,9 @@ func init() {
 	}
 }
 
-// normalise applies (b) and, when inline is set, (a) to every function of the package.
-func (p *pkg) normalise(inline bool) {
+// normalise applies (a) and (b) to every function of the package; with multi unset (a) leaves the local constants that
+// are used more than once to the translator.
+func (p *pkg) normalise(multi bool) {
 	var keys []string
 	for k := range p.funcs {
 		keys = append(keys, k)
@@ -47,9 +50,7 @@ func (p *pkg) normalise(inline bool) {
 		if d.Body == nil {
 			continue
 		}
-		if inline {
-			p.inlineLocalConsts(d)
-		}
+		p.inlineLocalConsts(d, multi)
 		p.normaliseLenCmp(d)
 	}
 }
@@ -150,7 +151,7 @@ func (p *pkg) isOuterName(n string) bool {
 	return ok
 }
 
-func (p *pkg) inlineLocalConsts(d *ast.FuncDecl) {
+func (p *pkg) inlineLocalConsts(d *ast.FuncDecl, multi bool) {
 	var specs []*ast.ValueSpec
 	ast.Inspect(d.Body, func(n ast.Node) bool {
 		if ds, ok := n.(*ast.DeclStmt); ok {
@@ -170,6 +171,7 @@ func (p *pkg) inlineLocalConsts(d *ast.FuncDecl) {
 	// every object the parser resolved inside this declaration, by name; and the objects used as composite literal keys
 	objs := map[string]map[*ast.Object]bool{}
 	keyObjs := map[*ast.Object]bool{}
+	occ := map[*ast.Object]int{} // occurrences, the declaring one included
 	ast.Inspect(d, func(n ast.Node) bool {
 		switch x := n.(type) {
 		case *ast.Ident:
@@ -178,6 +180,7 @@ func (p *pkg) inlineLocalConsts(d *ast.FuncDecl) {
 					objs[x.Name] = map[*ast.Object]bool{}
 				}
 				objs[x.Name][x.Obj] = true
+				occ[x.Obj]++
 			}
 		case *ast.KeyValueExpr:
 			if id, ok := x.Key.(*ast.Ident); ok && id.Obj != nil {
@@ -205,7 +208,7 @@ func (p *pkg) inlineLocalConsts(d *ast.FuncDecl) {
 				continue
 			}
 			o := id.Obj
-			if o == nil || o.Kind != ast.Con || o.Decl != interface{}(s) || p.isOuterName(id.Name) || len(objs[id.Name]) != 1 || keyObjs[o] {
+			if o == nil || o.Kind != ast.Con || o.Decl != interface{}(s) || p.isOuterName(id.Name) || len(objs[id.Name]) != 1 || keyObjs[o] || (!multi && occ[o] > 2) {
 				ok = false
 			}
 		}
